@@ -593,6 +593,10 @@ class Interp:
                 return self.truth(o)
             return S.truthy(v)
         if isinstance(v, SymObj):
+            from . import lib as _lib
+
+            if _lib.is_box_cls(v.cls) and "v" in v.fields:
+                return S.truthy(v.fields["v"])  # a container object is as true as its content
             if "__bool__" in _mro_dict(v.cls) or "__len__" in _mro_dict(v.cls):
                 raise Unsupported("truthiness of object with __bool__/__len__")
             return True
@@ -767,6 +771,9 @@ class Interp:
 
     def call_function(self, fv, args, kwargs):
         key = _fkey(fv)
+        over = getattr(self, "recursion_contract", None)
+        if over and key in over:
+            return over[key](self, fv, args, kwargs)  # modular recursion: the call inside the body under verification
         c = self.contracts.get(key)
         if c is not None and key not in getattr(self, "inline", ()):
             return c(self, fv, args, kwargs)
